@@ -3,7 +3,7 @@ import matplotlib.pyplot as plt
 from numpy import ndarray, float64
 from numpy import array, savez, savez_compressed, load, zeros
 from numpy import var, isfinite, exp, mean, argmax, percentile, cov
-from numpy import sqrt, maximum, minimum, diagonal, ndim, where, atleast_2d
+from numpy import sqrt, maximum, minimum, diagonal, ndim, where, atleast_2d, spacing
 from numpy.random import default_rng
 
 from inference.mcmc.utilities import Bounds, ChainProgressPrinter, effective_sample_size
@@ -226,9 +226,9 @@ class HamiltonianChain(MarkovChain):
         # floating-point numbers around t
         inv_mass = self.mass.inv_mass
         inv_mass = diagonal(inv_mass) if ndim(inv_mass) == 2 else inv_mass
-        # (a floor of 1e-12 |t|, some thousands of spacings: the difference below is divided
+        # (a floor of 64 spacings of the numbers around t: the difference below is divided
         # by the step actually taken, so the floor only has to keep the two points apart)
-        dt = 1e-5 * maximum(1e-7 * abs(t), self.ES.epsilon * sqrt(inv_mass))
+        dt = maximum(64 * spacing(abs(t)), 1e-5 * self.ES.epsilon * sqrt(inv_mass))
         if self.bounds is not None:
             # keep the step small compared with the bounds, and step towards the
             # inside of the bounds if a forward step would leave them
